@@ -368,6 +368,37 @@ def ref_phys(fd, f):
             2 * math.pi * n2 * f / (c0 * math.pi * w ** 2)]
 
 
+def ref_nli(fd, chans):
+    """the published GN closed form (arXiv:1209.0394 eq. 120-123) on the declared fibre and the launched comb, plain
+    scalar Python: nli_i = sum_j P_i P_j^2 gamma_i^2 w_ij psi_ij / B_j^2, w_ii = 16/27, w_ij = 32/27,
+    psi_ij = [asinh(pi^2 La_j |b_ij| B_i (df + B_j/2)) - asinh(pi^2 La_j |b_ij| B_i (df - B_j/2))] Leff_j^2 / (4 pi |b_ij| La_j).
+    chans: [f, baud, slot, power launched into the fibre]; None when a table does not cover the comb"""
+    length = fd['length_km'] * 1e3
+    att = 10 ** (-(fd['con_in'] + fd['att_in']) / 10)
+    ph = [ref_phys(fd, c[0]) for c in chans]
+    if any(p is None for p in ph):
+        return None
+    n = len(chans)
+    f = [c[0] for c in chans]
+    bw = [c[1] for c in chans]
+    pw = [c[3] * att for c in chans]
+    la = [1 / p[0] for p in ph]
+    leff2 = [((1 - math.exp(-p[0] * length)) / p[0]) ** 2 for p in ph]
+    out = []
+    pi2 = math.pi ** 2
+    for i in range(n):
+        acc = 0.0
+        bi, b2i = bw[i], ph[i][1]
+        for j in range(n):
+            b = abs(b2i + ph[j][1]) / 2
+            cc = pi2 * la[j] * b * bi
+            df = f[j] - f[i]
+            psi = (math.asinh(cc * (df + bw[j] / 2)) - math.asinh(cc * (df - bw[j] / 2))) / (4 * math.pi * b * la[j]) * leff2[j]
+            acc += pw[j] ** 2 * (16 / 27 if i == j else 32 / 27) * psi / bw[j] ** 2
+        out.append(pw[i] * ph[i][2] ** 2 * acc)
+    return out
+
+
 def i_strict(base, ra, j):
     return ra[j] > base[j] if base[j] > 0 else None
 
@@ -474,6 +505,15 @@ def run(ctx):
         if numeric:
             for key, desc in oracle(c, rec, rng):
                 ctx.violation(key, desc, strip(c))
+            # the NLI added in the fibre is the published closed form on the launched comb and the declared fibre
+            ref_v = ref_nli(fd, chans)
+            if ref_v is not None:
+                ctx.count('closed_form_checked')
+                for i, (a, b) in enumerate(zip(rec['out'], ref_v)):
+                    if not close(a, b, 1e-9):
+                        ctx.violation('closed_form', f'channel {i} of {len(chans)}: Fiber.__call__ added NLI {a!r}, GN closed form gives {b!r} '
+                                      f'(rel {abs(a - b) / max(abs(b), 1e-300):.3g})', strip(c))
+                        break
             # the coefficients the solver used are those of the declared fibre
             ref = ref_phys(fd, chans[0][0])
             if ref and not isinstance(rec['phys'], str):
